@@ -43,6 +43,12 @@ pub struct AliasPlan {
     /// children goes up and down while equal tuples are requested concurrently
     #[serde(default)]
     pub churn: bool,
+    /// local vectors: after the flush the first request's child is removed through the shared vector,
+    /// then through the local vector (refused: already gone), then requested again through the local
+    /// vector, updated with weight 2^50 and flushed: the shared vector must show a child that
+    /// started from zero
+    #[serde(default)]
+    pub detach: bool,
 }
 
 fn splits(s: &str, n: usize, r: &mut Rng) -> Vec<String> {
@@ -127,7 +133,8 @@ fn gen_plan(seed: u64) -> AliasPlan {
     let churn = nthreads == 2 && r.chance(50);
     let faults = churn && r.chance(50);
     let env = Env::swarm(&mut r, nthreads, nreq as u64 * 12 + 10, faults);
-    AliasPlan { env, kind, labels, consts, requests, nthreads, churn }
+    let detach = is_local && r.chance(35);
+    AliasPlan { env, kind, labels, consts, requests, nthreads, churn, detach }
 }
 
 /// The tuple a request denotes, or None if the request is invalid for the declared names.
@@ -313,6 +320,7 @@ fn execute(plan: &AliasPlan, mode: Mode) -> RunOut {
         let local_reads = local_reads.clone();
         let labels = plan.labels.clone();
         let one = vec![vec![0u8]];
+        let detach = plan.detach;
         let res2: Results<ARes> = results.clone();
         spawn_threads(&sim, &one, &res2, move |_ctx, _t, _i, _op: &u8| {
             macro_rules! drive {
@@ -332,6 +340,17 @@ fn execute(plan: &AliasPlan, mode: Mode) -> RunOut {
                         local_reads.lock().unwrap().insert(*ri, $get(l));
                     }
                     lv.flush();
+                    if detach {
+                        if let Some((_, req)) = reqs.first() {
+                            let t = tuple_of(&labels, req).expect("valid request");
+                            let vs: Vec<&str> = t.iter().map(|s| s.as_str()).collect();
+                            vec.remove(&Req::Values(t.clone()));
+                            let _ = lv.remove_label_values(&vs);
+                            let l = lv.with_label_values(&vs);
+                            $add(l, 1u64 << 50);
+                            lv.flush();
+                        }
+                    }
                 }};
             }
             match &vec {
@@ -368,6 +387,13 @@ fn execute(plan: &AliasPlan, mode: Mode) -> RunOut {
     for (i, t) in tuples.iter().enumerate() {
         if let Some(t) = t {
             *want.entry(t.clone()).or_default() |= 1u64 << (i + 8);
+        }
+    }
+    // (the local reads were taken before the detach step and are judged against the first pass)
+    let want_first_pass = want.clone();
+    if plan.detach && is_local {
+        if let Some(Some(t0)) = tuples.first() {
+            want.insert(t0.clone(), 1u64 << 50);
         }
     }
     let alias_key = |a: &Vec<String>, b: &Vec<String>| if a.concat() == b.concat() { "C05/alias:same-concatenation" } else { "C05/alias" };
@@ -411,7 +437,7 @@ fn execute(plan: &AliasPlan, mode: Mode) -> RunOut {
         let lr = local_reads.lock().unwrap();
         for (i, t) in tuples.iter().enumerate() {
             if let (Some(t), Some(got)) = (t, lr.get(&i)) {
-                let w = want[t] as f64;
+                let w = want_first_pass[t] as f64;
                 if *got != w {
                     let gu = f2u(*got).unwrap_or(0);
                     let mut key = "C05/alias";
@@ -488,7 +514,7 @@ fn execute(plan: &AliasPlan, mode: Mode) -> RunOut {
     }
     // distinct = distinct workload shapes (kind, labels, constants, requests, threads), not seeds
     let mut fp = crate::rng::Fp::default();
-    fp.str(&serde_json::to_string(&(&plan.kind, &plan.labels, &plan.consts, &plan.requests, plan.nthreads, plan.churn)).unwrap());
+    fp.str(&serde_json::to_string(&(&plan.kind, &plan.labels, &plan.consts, &plan.requests, plan.nthreads, plan.churn, plan.detach)).unwrap());
     out.signature = fp.0;
     out.probes.push(("invalid_requests", tuples.iter().filter(|t| t.is_none()).count() as u64));
     out.probes.push(("same_concatenation_pairs", {
